@@ -553,7 +553,7 @@ def fault_signature(prefix, f):
 
 
 # ------------------------------------------------------------------ grouped harness execution (fault-heavy explorations)
-def run_grouped(binary, lines, group_of, procs=4, batch=1500, max_same=25):
+def run_grouped(binary, lines, group_of, procs=4, batch=300, max_same=25):
     """Run harness lines in batches, several harness processes at a time. Lines are grouped by
     group_of(line); once one group has produced max_same faults with the same signature, the rest of
     that group is skipped (and counted) - thousands of repetitions of one crash add nothing and each
